@@ -225,6 +225,51 @@ def audit_assumptions(out):
     return sorted(set(bad))
 
 
+
+def coqchk_start(rel, timeout=2400):
+    """Start coqchk -o on a compiled property file (independent re-check of its whole closure);
+    returns the process, to be collected with coqchk_collect."""
+    lib = "D42Props." + os.path.basename(rel)[:-2]
+    flags = []
+    it = iter(COQ_FLAGS)
+    for a in it:
+        if a == "-Q":
+            flags += ["-Q", next(it), next(it)]
+    cmd = ["timeout", str(timeout), "coqchk", "-silent", "-o"] + flags + [lib]
+    return subprocess.Popen(cmd, cwd=COQ, stdout=subprocess.PIPE, stderr=subprocess.STDOUT, text=True)
+
+
+def coqchk_collect(proc):
+    """(ok, report): ok iff coqchk accepted every library of the closure, no axiom outside Coq's own
+    libraries is relied upon, and nothing relies on type-in-type / unsafe fixpoints / assumed positivity."""
+    out, _ = proc.communicate()
+    report = {"exit": proc.returncode}
+    sections = {}
+    cur = None
+    for line in out.splitlines():
+        m = re.match(r"\* (.*?):\s*(<none>)?\s*$", line.strip())
+        if m:
+            cur = m.group(1)
+            sections[cur] = []
+            continue
+        if cur and line.strip():
+            sections[cur].append(line.strip())
+    axioms = sections.get("Axioms", [])
+    foreign = [a for a in axioms if not a.startswith("Coq.")]
+    report["axioms_of_loaded_libraries"] = len(axioms)
+    report["axioms_outside_coq_stdlib"] = foreign
+    report["axiom_families"] = sorted({".".join(a.split(".")[:-1]) for a in axioms})
+    flags_ok = True
+    for key in ("Constants/Inductives relying on type-in-type", "Constants/Inductives relying on unsafe (co)fixpoints",
+                "Inductives whose positivity is assumed"):
+        report[key] = sections.get(key, ["<section missing>"])
+        if report[key]:
+            flags_ok = False
+    ok = proc.returncode == 0 and not foreign and flags_ok and "Axioms" in sections
+    if not ok:
+        report["tail"] = out[-2000:]
+    return ok, report
+
 # ------------------------------------------------------------------ case files
 CASE_HEADER = """From Coq Require Import PrimFloat.
 Require Import D42.Prelude D42.PyFloat D42.Value D42.Regex D42.Schema D42.Validate D42.CaseLib.
